@@ -8,10 +8,16 @@ type unitSpec struct {
 	Module string            // Coq module (file) name: <Module>.v
 	Funcs  []string          // nil: every function of the file; else: only these (the rest is reported as not_selected)
 	Skip   map[string]string // function name -> reason (explicit skips)
+	// ExtraFiles: further files of the SAME package translated into the same Coq module (enumerable.go, ...)
+	ExtraFiles []string
 	// Abstract: struct field name -> the wrapped container is an ABSTRACT INTERFACE (a record of functions,
 	// parameter of the generated definitions).  Pure lists its read-only methods; every other method is
 	// translated as a mutator `state -> args -> state * result`.
 	Abstract map[string]absSpec
+	// Opaque: receiver struct types of this file that are ABSTRACT (linked structures declared elsewhere in the
+	// package): type name -> interface.  Their methods are translated as functions taking the abstract value
+	// as first parameter; "lit.empty" is the composite literal &T{} , "Iterator" the enumeration.
+	Opaque map[string]absSpec
 	// IgnoreFields: struct fields left out of the record (reading or writing them is refused), with the reason
 	IgnoreFields map[string]string
 	// CapSlices: slices are GoSlice.slice records (backing array up to the capacity + length) instead of
@@ -52,18 +58,22 @@ var whitelist = []unitSpec{
 	{GoFile: "maps/hashmap/hashmap.go", Module: "HashMapGen", Skip: map[string]string{"String": skipFmt}},
 	{GoFile: "sets/hashset/hashset.go", Module: "HashSetGen", Skip: map[string]string{"String": skipFmt}},
 	// table (Go map) + ordering (abstract doubly linked list); Iterator() is an abstract enumeration
-	{GoFile: "sets/linkedhashset/linkedhashset.go", Module: "LinkedHashSetGen", Skip: map[string]string{"String": skipFmt},
+	{GoFile: "sets/linkedhashset/linkedhashset.go", Module: "LinkedHashSetGen", Skip: enumSkip, ExtraFiles: []string{"sets/linkedhashset/enumerable.go"},
 		Abstract: dllOrdering},
-	{GoFile: "maps/linkedhashmap/linkedhashmap.go", Module: "LinkedHashMapGen", Skip: map[string]string{"String": skipFmt},
+	{GoFile: "maps/linkedhashmap/linkedhashmap.go", Module: "LinkedHashMapGen", Skip: enumSkip, ExtraFiles: []string{"maps/linkedhashmap/enumerable.go"},
 		Abstract: dllOrdering},
 	// red-black tree wrappers: the tree is an abstract interface (instantiated with the machine's model of it)
-	{GoFile: "maps/treemap/treemap.go", Module: "TreeMapGen", Skip: map[string]string{"String": skipFmt}, Abstract: rbtAbs},
-	{GoFile: "sets/treeset/treeset.go", Module: "TreeSetGen", Skip: map[string]string{"String": skipFmt}, Abstract: rbtAbs},
+	{GoFile: "maps/treemap/treemap.go", Module: "TreeMapGen", Skip: enumSkip, ExtraFiles: []string{"maps/treemap/enumerable.go"}, Abstract: rbtAbs},
+	{GoFile: "sets/treeset/treeset.go", Module: "TreeSetGen", Skip: enumSkip, ExtraFiles: []string{"sets/treeset/enumerable.go"}, Abstract: rbtAbs},
 	// bidirectional maps: two abstract maps / trees
 	{GoFile: "maps/hashbidimap/hashbidimap.go", Module: "HashBidiMapGen", Skip: map[string]string{"String": skipFmt},
 		Abstract: map[string]absSpec{"forwardMap": hmapSpec, "inverseMap": hmapSpec}},
-	{GoFile: "maps/treebidimap/treebidimap.go", Module: "TreeBidiMapGen", Skip: map[string]string{"String": skipFmt},
+	{GoFile: "maps/treebidimap/treebidimap.go", Module: "TreeBidiMapGen", Skip: enumSkip, ExtraFiles: []string{"maps/treebidimap/enumerable.go"},
 		Abstract: map[string]absSpec{"forwardMap": rbtSpec, "inverseMap": rbtSpec}},
+	// enumerable.go of the three lists: the list itself is an opaque (abstract) receiver
+	{GoFile: "lists/arraylist/enumerable.go", Module: "ArrayListEnumGen", Skip: enumOnlySkip, Opaque: listOpaque},
+	{GoFile: "lists/singlylinkedlist/enumerable.go", Module: "SinglyLinkedListEnumGen", Skip: enumOnlySkip, Opaque: listOpaque},
+	{GoFile: "lists/doublylinkedlist/enumerable.go", Module: "DoublyLinkedListEnumGen", Skip: enumOnlySkip, Opaque: listOpaque},
 	{GoFile: "queues/priorityqueue/priorityqueue.go", Module: "PriorityQueueWrapGen",
 		Skip: map[string]string{"String": skipFmt, "New": skipCtor, "NewWith": skipCtor},
 		Abstract: map[string]absSpec{"heap": {Pure: []string{"Peek", "Empty", "Size", "Values"},
@@ -89,3 +99,10 @@ var rbtSpec = rbtAbs["tree"]
 var rbtAbs = map[string]absSpec{"tree": {Pure: []string{"Get", "Size", "Empty", "Keys", "Values", "Left", "Right", "Floor", "Ceiling"},
 	Methods: []string{"Ceiling", "Clear", "Empty", "Floor", "Get", "Keys", "Left", "Put", "Remove", "Right", "Size", "Values",
 		"fld.Comparator", "pkg.New", "pkg.NewWith"}}}
+
+// Each(f) calls f for its side effects only, which the value model does not have; the order of the calls is the
+// iterator's (the abstract enumeration)
+var enumSkip = map[string]string{"String": skipFmt, "Each": "calls f only for its side effects (not modelled); visits the iterator's enumeration"}
+
+var enumOnlySkip = map[string]string{"Each": enumSkip["Each"]}
+var listOpaque = map[string]absSpec{"List": {Pure: listPure, Methods: []string{"Add", "Iterator", "lit.empty"}}}
